@@ -288,6 +288,30 @@ def r16_9(ctx, fx):
                detail="None exits reachable without `peer == local_peer_id`: %s" % bad)
 
 
+def r16_10(ctx, fx):
+    """a response that cannot be used settles the request: in Kademlia::run, when on_message_received fails for a message that answers a
+    local request (an undecodable frame, a PING, an ADD_PROVIDER sent as 'response'), nothing else will arrive for that request - the
+    read already succeeded, so no timeout fires.  The arm that handles the message has a call that registers the failure with the query
+    (disconnect_peer / register_peer_failure) between the call and the next select! dispatch."""
+    fn = ctx.fn(fx, K + "run::{closure#0}", "R16.10")
+    if fn is None:
+        return
+    omr = [c for c in fn.calls(r"Kademlia::on_message_received$")]
+    ctx.anchor("R16.10", "run: on_message_received calls", len(omr), 1, cfg=fx.cfg)
+    # the handling of one executor result ends where the loop starts over: the drain of engine.next_action() at the loop head, or the
+    # next select! dispatch
+    ends = set(fn.return_nodes()) | {sw[0] for sw in fn.discr_switches() if sw[2].endswith("__tokio_select_util::Out")} | {c.node for c in fn.calls(r"QueryEngine::next_action$")}
+    settle = [c.node for c in fn.calls(r"Kademlia::disconnect_peer$|QueryEngine::register_peer_failure$|QueryEngine::register_response_failure$")]
+    for i, c in enumerate(omr):
+        # only the call that carries a query id (answers to local requests): its third argument is not a literal None
+        sh = fn.shape(c.args[3]) if len(c.args) > 3 else set()
+        if sh == {"None"}:
+            continue
+        r = fn.reach([c.node], after=True, stop=ends | {c.node})
+        ctx.ob("R16.10", "run/on_message_received#%d:failure-of-an-answer-is-registered-with-the-query" % i, any(x in r for x in settle), site=fn.site(c.node), cfg=fx.cfg,
+               detail="query id argument shape %s; settle calls in the arm: %d" % (sorted(sh), len([x for x in settle if x in r])))
+
+
 def r16_4(ctx, fx):
     """sibling contexts that decide 'the requested quorum was reached' (put to given peers; put to the closest peers found): the same
     obligations are evaluated on both"""
@@ -437,6 +461,7 @@ def run(ctx):
     r16_7(ctx, fx)
     r16_8(ctx, fx)
     r16_9(ctx, fx)
+    r16_10(ctx, fx)
     # a request / query parked behind a dial is settled only if the dial's outcome is reported: the transport manager's obligations
     # R05.9 (stated in rules/C05.py) are part of this property's argument and evaluated here too
     import C05
